@@ -41,10 +41,55 @@ void ir_assume_fail(void) { printf("ASSUME-FAILED\n"); fflush(stdout); exit(77);
             A[i_ + 1] = (A[i_ + 1] & ~(NMASK(N) >> (64 - sh_))) | (v_ >> (64 - sh_));       \
     } while (0)
 
+#ifdef IR_PHANTOM
+/* Sparse "phantom" region for blocks far larger than the modelled heap (C18 min_block_size harnesses):
+ * an 8-byte store to an address not yet covered opens a 32-byte line there (that is how every chunk header
+ * starts); accesses inside a line are exact; narrower stores outside every line are dropped (node payload that
+ * is never read back); a load outside every line is a machinery error, never a silent nondet. */
+#define PH_BASE UINT64_C(0x1000000)
+#define PH_LINES 12
+uint64_t PHL[PH_LINES * 4];
+uint64_t ph_tag[PH_LINES];
+int ph_n;
+static int ph_find(uint64_t a, int N)
+{
+    /* lines are opened at strictly increasing addresses (checked in ph_store), so an address at or above the newest
+       line can only belong to that line */
+    if (ph_n > 0 && a >= ph_tag[ph_n - 1]) return a + (uint64_t)N <= ph_tag[ph_n - 1] + 32 ? ph_n - 1 : -1;
+    for (int j = 0; j < PH_LINES; ++j)
+        if (j < ph_n && a >= ph_tag[j] && a + (uint64_t)N <= ph_tag[j] + 32) return j;
+    return -1;
+}
+static uint64_t ph_load(uint64_t a, int N)
+{
+    int j = ph_find(a, N); uint64_t r = 0;
+    IR_CHECK(j >= 0, "phantom region: load from bytes that were never stored as part of a header line");
+    if (j < 0) return 0;
+    uint64_t o = (uint64_t)j * 32 + (a - ph_tag[j]);
+    RDN(PHL, o, N, r);
+    return r;
+}
+static void ph_store(uint64_t a, uint64_t v, int N)
+{
+    int j = ph_find(a, N);
+    if (j < 0) {
+        if (N != 8) return;                       /* payload byte, dropped */
+        IR_CHECK(ph_n < PH_LINES, "phantom region: more header lines than PH_LINES");
+        if (ph_n >= PH_LINES) return;
+        IR_CHECK(ph_n == 0 || a >= ph_tag[ph_n - 1] + 32, "phantom region: header lines must be opened at increasing addresses");
+        j = ph_n++; ph_tag[j] = a;
+    }
+    uint64_t o = (uint64_t)j * 32 + (a - ph_tag[j]);
+    WRN(PHL, o, N, v);
+}
+#endif
 static uint64_t ldn(uint64_t a, int m, int N)
 {
     uint64_t r = 0;
     MASKFIX
+#ifdef IR_PHANTOM
+    if (a >= PH_BASE) return ph_load(a, N);
+#endif
     if ((m & RH) && INR(a, HEAP_BASE, HEAP_SIZE, N)) { uint64_t o = a - HEAP_BASE; RDN(HEAP, o, N, r); return r; }
     if ((m & RS) && INR(a, STK_BASE, STK_SIZE, N)) { uint64_t o = a - STK_BASE; RDN(STK, o, N, r); return r; }
     if ((m & RG) && INR(a, GLB_BASE, GLB_SIZE, N)) { uint64_t o = a - GLB_BASE; RDN(GLB, o, N, r); return r; }
@@ -55,6 +100,9 @@ static uint64_t ldn(uint64_t a, int m, int N)
 static void stn(uint64_t a, uint64_t v, int m, int N)
 {
     MASKFIX
+#ifdef IR_PHANTOM
+    if (a >= PH_BASE) { ph_store(a, v, N); return; }
+#endif
     if ((m & RH) && INR(a, HEAP_BASE, HEAP_SIZE, N)) { uint64_t o = a - HEAP_BASE; WRN(HEAP, o, N, v); return; }
     if ((m & RS) && INR(a, STK_BASE, STK_SIZE, N)) { uint64_t o = a - STK_BASE; WRN(STK, o, N, v); return; }
     if ((m & RG) && INR(a, GLB_BASE, GLB_SIZE, N)) { uint64_t o = a - GLB_BASE; WRN(GLB, o, N, v); return; }
@@ -102,6 +150,9 @@ static void memset_words(uint64_t* A, uint64_t lo, uint64_t n, uint8_t v)
 void ir_memset(uint64_t d, uint8_t v, uint64_t n)
 {
     if (n == 0) return;
+#ifdef IR_PHANTOM
+    if (d >= PH_BASE) return;   /* fill of payload, dropped (see above) */
+#endif
     if (INR(d, HEAP_BASE, HEAP_SIZE, 1) && n <= HEAP_SIZE - (d - HEAP_BASE)) { memset_words(HEAP, d - HEAP_BASE, n, v); return; }
     if (INR(d, STK_BASE, STK_SIZE, 1) && n <= STK_SIZE - (d - STK_BASE)) { memset_words(STK, d - STK_BASE, n, v); return; }
     if (INR(d, GLB_BASE, GLB_SIZE, 1) && n <= GLB_SIZE - (d - GLB_BASE)) { memset_words(GLB, d - GLB_BASE, n, v); return; }
